@@ -2,6 +2,7 @@ package ksim
 
 import (
 	"fmt"
+	rutil "github.com/openkruise/rollouts/pkg/util"
 	autoscalingv2 "k8s.io/api/autoscaling/v2"
 	"reflect"
 	"strconv"
@@ -656,6 +657,12 @@ func (o *trafficOracle) OnEnd(s *Sim) {
 		exit = "rolled-back"
 	}
 	fam := o.sc.Family + "/" + exit
+	if exit == "rolled-back" && ro != nil {
+		if c := rutil.GetRolloutCondition(ro.Status, v1beta1.RolloutConditionSucceeded); c != nil && c.Status == corev1.ConditionTrue {
+			// the rollback raced with the completion of the last step: the release was finalised as a success
+			fam += "/finalised-as-success"
+		}
+	}
 	if o.sc.user.ExitNoBR {
 		fam += "/no-batchrelease-at-exit"
 	} else if o.sc.user.ExitUnclaimed {
